@@ -397,7 +397,17 @@ func run(sc scenario, steps []step, check bool) string {
 	// horizon: every message of a transaction that is still in the block it was first mined in, with a
 	// success receipt and a core-contract published log, was forwarded exactly once by the polling path -
 	// unless the watcher died (restart loses the pending set: that is another component's concern) or a fault was injected
-	if died || faulted {
+	envCause := false // something outside the watcher that can end its Run: an RPC error, a restart, a deadline that expired
+	for _, s := range steps {
+		if s.Op == "fault" || s.Op == "restart" || s.Op == "elapse" {
+			envCause = true
+		}
+	}
+	if died && !envCause {
+		// the node answered every request and nobody restarted the watcher: it ended its own Run. The log it had
+		// consumed is gone with it, so the messages below are judged as usual.
+		viol(sc, steps, "C10 the watcher's Run ended although the node answered every request and no restart was asked for", strings.Join(w.d.Exits, "; "))
+	} else if died || faulted {
 		return fmt.Sprint(w.fwd)
 	}
 	first := map[int]step{}
